@@ -563,7 +563,26 @@ namespace chaiscript::json {
       return JSON();
     }
 
+    /// Arrays and objects nest through parse_next(); bound the nesting so that hostile input
+    /// ("[[[[[[...") raises an error instead of overflowing the native stack.
+    struct Depth_Guard {
+      constexpr static size_t max_depth = 512;
+      explicit Depth_Guard(size_t &t_depth)
+          : depth(t_depth) {
+        if (++depth > max_depth) {
+          --depth;
+          throw std::runtime_error("JSON ERROR: Parse: Maximum nesting depth exceeded");
+        }
+      }
+      Depth_Guard(const Depth_Guard &) = delete;
+      Depth_Guard &operator=(const Depth_Guard &) = delete;
+      ~Depth_Guard() { --depth; }
+      size_t &depth;
+    };
+
     static JSON parse_next(const std::string &str, size_t &offset) {
+      thread_local size_t depth = 0;
+      Depth_Guard guard(depth);
       char value;
       consume_ws(str, offset);
       value = str.at(offset);
